@@ -8,7 +8,7 @@ from . import _consumer_sim as CS
 
 ID = "C13"
 LEVEL = "exploration"
-RULE = ("Case = (committed offset: absent / inside / below log start / beyond log end) x policy "
+RULE = ("Case = (committed offset: absent / inside / 0 in a log starting at 0 / below log start / beyond log end) x policy "
         "(earliest/latest/none) x isolation level (with an open transaction holding LSO < HW) x consumer "
         "kind (manual assign with group, subscribed group of one, group-less) x ListOffsets personality "
         "v0..v3 x faults on ListOffsets/OffsetFetch/FindCoordinator/Fetch x an optional seek() at a drawn "
@@ -85,8 +85,22 @@ def evaluate(case, obs):
     seek_before_position = False
     established = False
     first_data_call = True
+    n_assigned = 0
     for ev in obs.events:
         op = ev["op"]
+        if op == "assigned":
+            n_assigned += 1
+            if n_assigned > 1 and k in ev["tps"]:
+                # re-assignment: partition state is new, the start rule applies again (nothing was committed meanwhile)
+                out.label("reassigned_same_partition")
+                pos = val if kind == "pos" else None
+                pre = committed if (committed is not None and reset) else None
+                sought = False
+                established = False
+                first_data_call = True
+            continue
+        if op == "revoked":
+            continue
         if op == "seek":
             pos = ev["offset"]
             sought = True
@@ -187,7 +201,7 @@ def execute(case):
 
 
 GRID = list(itertools.product(
-    ["absent", "inside", "below", "beyond", "at_end"],
+    ["absent", "inside", "below", "beyond", "at_end", "zero"],
     ["earliest", "latest", "none"],
     ["read_uncommitted", "read_committed"],
     ["assign_group", "subscribe_group", "groupless_assign", "groupless_subscribe"],
@@ -199,13 +213,13 @@ def make_case(g, draw_seek, seek_delay, seek_frac, faults, lat, rng_seed, timing
     committed_kind, policy, iso, kind, lo_max = g
     if iso == "read_committed" and lo_max < 2:
         lo_max = 2
-    log_start = 20
+    log_start = 0 if committed_kind == "zero" else 20      # "zero": a log starting at 0 with committed offset 0
     # 4 plain batches, then an open transaction (LSO < HW) and more data
     batches = [dict(SPEC_DATA), dict(SPEC_DATA), dict(SPEC_DATA, codec=1), dict(SPEC_DATA),
                {"fmt": "v2", "kind": "data", "n": 2, "pid": 5, "txn": True, "seq": 0, "ts": [6]},
                dict(SPEC_DATA)]
     end = log_start + 3 * 5 + 2          # 37
-    committed = {"absent": None, "inside": 26, "below": log_start - 7, "beyond": end + 9, "at_end": end}[committed_kind]
+    committed = {"absent": None, "inside": 26, "below": log_start - 7, "beyond": end + 9, "at_end": end, "zero": 0}[committed_kind]
     cfg = {"mode": "assign" if "assign" in kind else "subscribe", "isolation": iso, "auto_offset_reset": policy,
            "group_id": "g" if kind in ("assign_group", "subscribe_group") else None,
            "request_timeout_ms": 400, "retry_backoff_ms": 20, "fetch_max_wait_ms": 50,
@@ -323,6 +337,30 @@ def late_leader_cases(shard, nshards, stride=1):
             yield case
 
 
+def reassigned_cases(shard, nshards):
+    """A group of one is sent through a second rebalance (a heartbeat answered REBALANCE_IN_PROGRESS) after it has
+    consumed past the committed offset without committing: it gets the same partition back and must start it from
+    the group's committed offset / the reset policy again."""
+    i = 0
+    for g in GRID:
+        if g[3] != "subscribe_group" or g[4] != 3:
+            continue
+        for k_hb in (1, 3):
+            for seek in (False, True):
+                i += 1
+                if i % nshards != shard:
+                    continue
+                case = make_case(g, seek, 0.0, 0.6, [{"sel": "heartbeat", "k": k_hb, "act": "error", "code": 27, "delay": 0.05}],
+                                 [0.001], 19, 0.01)
+                ops = case["tasks"][0]
+                # position / two records, then idle across the rebalance, then the same again
+                case["tasks"][0] = [o for o in ops if o[0] in ("sleep", "seek")] + \
+                    [["position", 0], ["getone", [0], 0.5], ["getone", [0], 0.5], ["sleep", 2.0],
+                     ["position", 0], ["getone", [0], 0.5], ["getone", [0], 0.5], ["position", 0]]
+                case["record_assignments"] = True
+                yield case
+
+
 def _run_with_initial(case):
     return execute(case)
 
@@ -337,5 +375,6 @@ def campaigns(tier):
                      else (lambda s, n: lookup_fault_cases(s, n))),
             Campaign("late_leader", "enum", execute=execute, setup=CS.setup, exhaustive=True,
                      cases=(lambda s, n: late_leader_cases(s, n, 1)) if th else (lambda s, n: late_leader_cases(s, n, 2))),
+            Campaign("reassigned", "enum", execute=execute, setup=CS.setup, exhaustive=True, cases=reassigned_cases),
             Campaign("start_sim", "hyp", execute=execute, strategy=strategy,
                      examples=20000 if th else 1000, setup=CS.setup, max_wall=900 if th else 80, shrink_wall=30)]
